@@ -49,6 +49,7 @@ theorem newSpec_mem {last : Last} {l : Life.S} {r : Rec} {a : AccI} (ha : a ∈ 
   | switchIn => simp [newSpec] at ha
   | switchOut => simp [newSpec] at ha
   | sched => simp [newSpec] at ha
+  | otherEvent => simp [newSpec] at ha
 
 /-- an invariant `P` of the lifecycle and a property `R` of tagged samples that holds of a sample tagged with the
 suffix of an alive incarnation of its pid, along a history inside the grammar -/
